@@ -75,7 +75,10 @@ func TestC11(t *testing.T) {
 					case 1, 2, 3:
 						size = rapid.IntRange(9, 300).Draw(rt, "size_small")
 					case 4:
-						size = rapid.SampledFrom([]int{2040, 2047, 2048, 2049, 4096, 3000}).Draw(rt, "size_edge")
+						size = rapid.SampledFrom([]int{2040, 2047, 2048, 2049, 4096, 3000, 65535, 65534, 65528}).Draw(rt, "size_edge")
+						if size > 60000 && total > 1500000 {
+							size = 2048
+						}
 					case 5, 6:
 						size = rapid.IntRange(301, 4000).Draw(rt, "size_mid")
 					default:
@@ -100,7 +103,17 @@ func TestC11(t *testing.T) {
 						total += len(f)
 						continue
 					}
-					m = &rawMsg{data: f}
+					switch gen.Pick(rt, "raw_as", 4) {
+					case 0:
+						// a util.Buffer created empty (with room) and then filled, as a caller assembling a frame does
+						b := util.NewBuffer(make([]byte, 0, size))
+						b.Write(f)
+						m = b
+					case 1:
+						m = util.NewBuffer(append([]byte{}, f...))
+					default:
+						m = &rawMsg{data: f}
+					}
 				}
 				enc, _ := m.MarshalBinary()
 				enc = append([]byte{}, enc...)
